@@ -22,7 +22,7 @@ def factory_config(name, params, shape, out):
     cfg = {"kind": "", "n": 0, "c": 0, "z": [], "order": 0}
     if base in ("sphere", "ellipsoid"):
         order = params.get("order", 2)
-        if order > 3:
+        if order > 2:
             return None
         cfg.update(kind="ico", order=int(order))
     elif base == "cube":
@@ -46,6 +46,8 @@ def factory_config(name, params, shape, out):
             return None
         cfg.update(kind="capsule", n=int(n), c=int(n // 2))
     else:
+        return None
+    if len(out[1]) > 4000:          # the comparison is element by element inside TLC: bounded size per record
         return None
     return cfg
 
@@ -158,7 +160,7 @@ def cases(tier, rng):
         hint = 2 * math.pi * r / (nper + 0.5)
         # the class boundary length = 2 * radius is approached from both sides (seed C17-8: a wider "medium" band gives a short
         # cylinder the medial potential of a medium one)
-        for ratio in ((0.5, 1.999, 2.0, 2.001, 6.0) if tier == "quick" else (0.2, 0.5, 1.0, 1.99, 1.999, 1.999999, 2.0, 2.000001, 2.001, 2.01, 3.0, 6.0, 20.0)):
+        for ratio in ((0.5, 1.999, 2.0, 2.001, 6.0) if tier == "quick" else (0.2, 0.5, 1.0, 1.99, 1.999, 2.0, 2.000001, 2.001, 2.01, 3.0, 6.0, 20.0)):
             ln = r * ratio
             if (nper > 26 and ratio != 2.0):
                 continue
